@@ -24,10 +24,9 @@ var keyAlias = map[string]string{} // key as written in the source now → key t
 
 func sigString(f *types.Func) string {
 	sig := f.Type().(*types.Signature)
-	q := func(p *types.Package) string { return p.Path() }
-	s := types.TypeString(sig, q)
+	s := types.TypeString(sig, qual)
 	if sig.Recv() != nil {
-		s = "(" + types.TypeString(sig.Recv().Type(), q) + ")" + s
+		s = "(" + types.TypeString(sig.Recv().Type(), qual) + ")" + s
 	}
 	return s
 }
@@ -43,11 +42,164 @@ func pkgOfKey(key string) string {
 }
 
 // resolveRenames fills keyAlias; it must run before any key is handed out.
-func (p *Prog) resolveRenames(current map[string]*types.Func) []string {
-	var anchors map[string]string
-	if err := json.Unmarshal(anchorsJSON, &anchors); err != nil || len(anchors) == 0 {
+// anchorTable is the content of anchors.json.
+type anchorTable struct {
+	Funcs  map[string]string      `json:"funcs"`  // function key → receiver and signature
+	Types  map[string]string      `json:"types"`  // "rel/pkg.Name" → underlying type
+	Fields map[string][]anchorFld `json:"fields"` // struct type key → fields in order
+}
+
+type anchorFld struct {
+	Name string `json:"name"`
+	Type string `json:"type"`
+}
+
+var typeAlias = map[*types.TypeName]string{} // type as named now → name the rules know
+var fieldAlias = map[*types.Var]string{}     // field as named now → name the rules know
+
+func qual(p *types.Package) string { return p.Path() }
+
+// resolveTypeAndFieldRenames: the same idea for named types (identical underlying type, one unknown
+// name in the package) and for struct fields (same struct, same field type, one unknown name; the
+// same position when there are several of that type). Runs before resolveRenames.
+func (p *Prog) resolveTypeAndFieldRenames(tab *anchorTable) []string {
+	var notes []string
+	for _, pkg := range p.All {
+		rel := relPkg(pkg.PkgPath)
+		if rel == "" {
+			rel = "coercion"
+		}
+		scope := pkg.Types.Scope()
+		known := func(name string) bool { _, ok := tab.Types[rel+"."+name]; return ok }
+		// types
+		var missing []string
+		for k := range tab.Types {
+			if pkgOfKey(k) == rel {
+				name := k[len(rel)+1:]
+				if scope.Lookup(name) == nil {
+					missing = append(missing, name)
+				}
+			}
+		}
+		sort.Strings(missing)
+		for _, old := range missing {
+			var cands []*types.TypeName
+			for _, n := range scope.Names() {
+				tn, ok := scope.Lookup(n).(*types.TypeName)
+				if !ok || known(n) || tn.IsAlias() {
+					continue
+				}
+				if types.TypeString(tn.Type().Underlying(), qual) == tab.Types[rel+"."+old] {
+					cands = append(cands, tn)
+				} else if st, ok := tn.Type().Underlying().(*types.Struct); ok {
+					// a struct renamed together with some of its fields: same field types in order, most names kept
+					of := tab.Fields[rel+"."+old]
+					if len(of) > 0 && len(of) == st.NumFields() {
+						same, names := true, 0
+						for i := range of {
+							if types.TypeString(st.Field(i).Type(), qual) != of[i].Type {
+								same = false
+							}
+							if st.Field(i).Name() == of[i].Name {
+								names++
+							}
+						}
+						if same && names*2 >= len(of) {
+							cands = append(cands, tn)
+						}
+					}
+				}
+			}
+			if len(cands) == 1 {
+				typeAlias[cands[0]] = old
+				notes = append(notes, fmt.Sprintf("type %s.%s no longer exists; %s has the same definition and is analysed in its place", rel, old, cands[0].Name()))
+			}
+		}
+		// fields
+		for _, n := range scope.Names() {
+			tn, ok := scope.Lookup(n).(*types.TypeName)
+			if !ok {
+				continue
+			}
+			st, ok := tn.Type().Underlying().(*types.Struct)
+			if !ok {
+				continue
+			}
+			name := n
+			if a, ok := typeAlias[tn]; ok {
+				name = a
+			}
+			oldFields, ok := tab.Fields[rel+"."+name]
+			if !ok {
+				continue
+			}
+			oldNames := map[string]bool{}
+			for _, f := range oldFields {
+				oldNames[f.Name] = true
+			}
+			cur := map[string]bool{}
+			for i := 0; i < st.NumFields(); i++ {
+				cur[st.Field(i).Name()] = true
+			}
+			for oi, of := range oldFields {
+				if cur[of.Name] {
+					continue
+				}
+				var cands []int
+				for i := 0; i < st.NumFields(); i++ {
+					f := st.Field(i)
+					if oldNames[f.Name()] {
+						continue
+					}
+					if _, taken := fieldAlias[f]; taken {
+						continue
+					}
+					if types.TypeString(f.Type(), qual) == of.Type {
+						cands = append(cands, i)
+					}
+				}
+				pick := -1
+				if len(cands) == 1 {
+					pick = cands[0]
+				} else {
+					for _, c := range cands {
+						if c == oi {
+							pick = c
+						}
+					}
+				}
+				if pick >= 0 {
+					fieldAlias[st.Field(pick)] = of.Name
+					notes = append(notes, fmt.Sprintf("field %s.%s.%s no longer exists; %s has the same type and is analysed in its place", rel, name, of.Name, st.Field(pick).Name()))
+				}
+			}
+		}
+	}
+	return notes
+}
+
+// FieldName is the name of a struct field as the rules know it.
+func FieldName(v *types.Var) string {
+	if a, ok := fieldAlias[v.Origin()]; ok {
+		return a
+	}
+	return v.Name()
+}
+
+func loadAnchorTable() *anchorTable {
+	var tab anchorTable
+	if err := json.Unmarshal(anchorsJSON, &tab); err != nil {
 		return nil
 	}
+	return &tab
+}
+
+func (p *Prog) resolveRenames(current map[string]*types.Func) []string {
+	tab := loadAnchorTable()
+	if tab == nil || len(tab.Funcs) == 0 {
+		return nil
+	}
+	anchors := tab.Funcs
 	var notes []string
 	var missing []string
 	for k := range anchors {
@@ -77,9 +229,30 @@ func (p *Prog) resolveRenames(current map[string]*types.Func) []string {
 }
 
 func writeAnchors(p *Prog, path string) error {
-	out := map[string]string{}
+	out := anchorTable{Funcs: map[string]string{}, Types: map[string]string{}, Fields: map[string][]anchorFld{}}
 	for k, fn := range p.Funcs {
-		out[k] = sigString(fn.Obj)
+		out.Funcs[k] = sigString(fn.Obj)
+	}
+	for _, pkg := range p.All {
+		rel := relPkg(pkg.PkgPath)
+		if rel == "" {
+			rel = "coercion"
+		}
+		scope := pkg.Types.Scope()
+		for _, n := range scope.Names() {
+			tn, ok := scope.Lookup(n).(*types.TypeName)
+			if !ok || tn.IsAlias() {
+				continue
+			}
+			out.Types[rel+"."+n] = types.TypeString(tn.Type().Underlying(), qual)
+			if st, ok := tn.Type().Underlying().(*types.Struct); ok {
+				var fs []anchorFld
+				for i := 0; i < st.NumFields(); i++ {
+					fs = append(fs, anchorFld{st.Field(i).Name(), types.TypeString(st.Field(i).Type(), qual)})
+				}
+				out.Fields[rel+"."+n] = fs
+			}
+		}
 	}
 	b, _ := json.MarshalIndent(out, "", " ")
 	return os.WriteFile(path, append(b, '\n'), 0o644)
